@@ -434,7 +434,7 @@ pub fn run(mut rep: Report) -> ! {
     );
     rep.assume("both sides of an equation are evaluated by jaq itself (the evaluator's own correctness is C01's business); the models of limit/skip/first/last/nth/isempty/[..]/try are computed by the harness from the items jaq yields for the bare argument stream");
     rep.assume("non-integer counts (1.5, \"a\", null) are outside the documented domain of limit/skip/nth and are not generated here (crash-freedom only, C05)");
-    let n = rep.n(60_000, 3_000_000);
+    let n = rep.n(30_000, 3_000_000);
     rep.random("consumer-equations", n, 96, consumers);
     rep.random("counting-models", n, 96, model);
     rep.random("generator-equations", n / 2, 64, generators);
